@@ -75,7 +75,7 @@ def _line(img, p, q):
             y0 += sy
 
 
-def voronoi_image(rng, ncells=20, clean=True, px_per_cell=None, min_ridge=9, min_angle_deg=25, tries=400, lumen=0):
+def voronoi_image(rng, ncells=20, clean=True, px_per_cell=None, min_ridge=9, min_angle_deg=25, tries=400, lumen=0, ring=False):
     """returns (uint8 image with frame, info). info: cells (site ids), adjacency pairs with an interior junction, border"""
     px = px_per_cell or float(rng.uniform(35, 90))
     for _ in range(tries):
@@ -166,6 +166,17 @@ def voronoi_image(rng, ncells=20, clean=True, px_per_cell=None, min_ridge=9, min
                 continue
             a, b = tuple(r)
             _line(img, V[a] + 1, V[b] + 1)
+        if ring:
+            # debris: a free closed ring below the tissue, sharing no pixel with it (canvas extended downwards)
+            extra = int(1.3 * px)
+            img = np.vstack([img, np.zeros((extra, img.shape[1]), np.uint8)])
+            cx, cy, rad = img.shape[1] / 2.0, H + 2 + 0.65 * px, 0.35 * px
+            nseg = int(rng.integers(5, 9))
+            a0 = rng.uniform(0, 2 * np.pi)
+            pr = [np.rint([cx + rad * np.cos(a0 + 2 * np.pi * i / nseg), cy + rad * np.sin(a0 + 2 * np.pi * i / nseg)]).astype(int)
+                  for i in range(nseg)]
+            for i in range(nseg):
+                _line(img, pr[i], pr[(i + 1) % nseg])
         if clean:
             img = thin(img.astype(bool)).astype(np.uint8)
         # connectivity of the kept cells (as a ridge-connected set) is needed for a tissue
